@@ -318,7 +318,7 @@ int main(int argc, char **argv) {
         }
         else if (!strcmp(cmd, "ENDRUN")) {
             if (ST) { if (P->has_free) P->free_(ST); free(ST); ST = NULL; }
-            fprintf(drv_log, "X\n");
+            fprintf(drv_log, "X %ld\n", callno);
         }
     }
     unsigned long nh = 0;
